@@ -651,7 +651,7 @@ func optimizeStructField(code *Opcode, tag *runtime.StructTag) OpType {
 
 func (c *StructFieldCode) headerOpcodes(ctx *compileContext, field *Opcode, valueCodes Opcodes) Opcodes {
 	value := valueCodes.First()
-	op := optimizeStructHeader(value, c.tag)
+	op := optimizeStructHeader(value, c.optionTag())
 	field.Op = op
 	if value.Flags&MarshalerContextFlags != 0 {
 		field.Flags |= MarshalerContextFlags
@@ -669,9 +669,22 @@ func (c *StructFieldCode) headerOpcodes(ctx *compileContext, field *Opcode, valu
 	return fieldCodes
 }
 
+// optionTag returns the tag that selects the operation of the field.
+// The omitempty and string options of an embedded struct that has no name of its own
+// do not apply ( its fields are promoted ).
+func (c *StructFieldCode) optionTag() *runtime.StructTag {
+	if c.isAnonymous && (c.tag.IsOmitEmpty || c.tag.IsString) {
+		tag := *c.tag
+		tag.IsOmitEmpty = false
+		tag.IsString = false
+		return &tag
+	}
+	return c.tag
+}
+
 func (c *StructFieldCode) fieldOpcodes(ctx *compileContext, field *Opcode, valueCodes Opcodes) Opcodes {
 	value := valueCodes.First()
-	op := optimizeStructField(value, c.tag)
+	op := optimizeStructField(value, c.optionTag())
 	field.Op = op
 	if value.Flags&MarshalerContextFlags != 0 {
 		field.Flags |= MarshalerContextFlags
